@@ -2,6 +2,7 @@ package scen
 
 import (
 	"context"
+	"errors"
 	"fmt"
 	"io"
 	"path/filepath"
@@ -25,6 +26,12 @@ type BackupCfg struct {
 	Sched     sched.Config   `json:"sched"`
 	NDocs     int            `json:"ndocs"`
 	AnalysisQ int            `json:"analysis_q"`
+	// DstFault n > 0: the n-th file a copy opens in the destination accepts DstFaultAfter bytes and then fails every
+	// write with "no space left on device" (a fault of the backup target: CopyTo has to report it)
+	DstFault      int `json:"dst_fault,omitempty"`
+	DstFaultAfter int `json:"dst_fault_after,omitempty"`
+	// Rename: the application gives the index a logical name different from its path before the copies
+	Rename bool `json:"rename,omitempty"`
 }
 
 // BackupWL is the workload.
@@ -44,6 +51,10 @@ func genBackup(c *core.Ctx) (BackupCfg, BackupWL) {
 		cfg.Sched = sched.Config{Policy: sched.PolStarve, StarveRole: "backup"}
 	}
 	cfg.SlowDst = []int{0, 0, 5, 40, 150}[g.Intn(5)]
+	if g.Intn(5) == 0 {
+		cfg.DstFault, cfg.DstFaultAfter = 1+g.Intn(4), []int{0, 1, 100, 1000}[g.Intn(4)]
+	}
+	cfg.Rename = g.Intn(4) == 0
 	wl := BackupWL{}
 	nw := 1 + g.Intn(3)
 	total := 0
@@ -77,13 +88,43 @@ type slowDirectory struct {
 	index.Directory
 	s     *sched.Sched
 	steps int
+	// fault injection: the faultAt-th file fails after faultAfter bytes
+	faultAt, faultAfter int
+	opened              int
+	fired               bool
 }
 
 func (d *slowDirectory) GetWriter(filePath string) (io.WriteCloser, error) {
 	for i := 0; i < d.steps; i++ {
 		d.s.Yield("slow-destination")
 	}
-	return d.Directory.GetWriter(filePath)
+	w, err := d.Directory.GetWriter(filePath)
+	if strings.HasSuffix(filePath, "root.bolt") {
+		return w, err // CopyTo hands this one to bbolt, which needs the *os.File itself
+	}
+	d.opened++
+	if err == nil && d.faultAt > 0 && d.opened == d.faultAt {
+		return &fullDiskWriter{WriteCloser: w, left: d.faultAfter, d: d}, nil
+	}
+	return w, err
+}
+
+// fullDiskWriter accepts a number of bytes and then fails like a full disk.
+type fullDiskWriter struct {
+	io.WriteCloser
+	left int
+	d    *slowDirectory
+}
+
+func (w *fullDiskWriter) Write(p []byte) (int, error) {
+	if len(p) <= w.left {
+		w.left -= len(p)
+		return w.WriteCloser.Write(p)
+	}
+	n, _ := w.WriteCloser.Write(p[:w.left])
+	w.left = 0
+	w.d.fired = true
+	return n, errors.New("write: no space left on device (injected)")
 }
 
 func backupScenario(c *core.Ctx) {
@@ -112,6 +153,10 @@ func backupScenario(c *core.Ctx) {
 	})
 	if !env.RunClients("setup") || c.Res.Harness != "" {
 		return
+	}
+	if cfg.Rename {
+		idx.SetName("renamed-by-the-application")
+		c.Probe("index_renamed")
 	}
 	_ = s.Quiesce(2 * time.Second)
 	nw := len(wl.Writers)
@@ -167,9 +212,17 @@ func backupScenario(c *core.Ctx) {
 			}
 			invStep := s.Steps
 			dst := filepath.Join(c.Dir, name)
-			err := idx.(bleve.IndexCopyable).CopyTo(&slowDirectory{Directory: bleve.FileSystemDirectory(dst), s: s, steps: cfg.SlowDst})
+			dir := &slowDirectory{Directory: bleve.FileSystemDirectory(dst), s: s, steps: cfg.SlowDst, faultAt: cfg.DstFault, faultAfter: cfg.DstFaultAfter}
+			err := idx.(bleve.IndexCopyable).CopyTo(dir)
 			after := invokedOf(tracks)
 			copies++
+			if dir.fired {
+				c.Fault("backup_target_write_error")
+				if err != nil {
+					return // the fault was reported: nothing more is promised about this copy
+				}
+				// CopyTo says the copy is complete although a write into it failed: it is judged like any other copy
+			}
 			if err != nil {
 				c.Violate("copy-failed", nil, s.Steps, "%s: CopyTo started at step %d returned %v", name, invStep, err)
 				return
